@@ -1005,6 +1005,44 @@ def build_phase_history(rng, n, bits, want_len):
     return [rand_pauli_gate(rng, n)[0] for _ in range(want_len)] if n > 0 else []
 
 
+def oracle_repeated_targets(ctx: Ctx):
+    """always-run, seed-independent: a multi-qubit Pauli gate whose target list REPEATS a qubit (accepted by the public
+    factory `Pauli`) is read as the product of its single-qubit factors in list order, first factor applied first - the
+    reading under which the unchanged bookkeeping is exact.  Every such gate with 2 or 3 factors on n ≤ 3 qubits, every id
+    combination, every start pattern.  A code that REFUSES such a gate is not judged (counted only)."""
+    from quri_parts.core.state import ComputationalBasisState
+
+    from oracle import c16_state as orc
+
+    for n in (1, 2, 3):
+        for k in (2, 3):
+            for targets in itertools.product(range(n), repeat=k):
+                if len(set(targets)) == k:
+                    continue
+                for ids in itertools.product((1, 2, 3), repeat=k):
+                    g = spec("Pauli", list(targets), p=list(ids))
+                    for bits in range(1 << n):
+                        try:
+                            s = ComputationalBasisState(n, bits=bits).with_gates_applied(real_seq("L", [g]))
+                            n1, b1, p1 = s._as_tuple()
+                        except Exception as e:  # noqa: BLE001
+                            ctx.count("oracle.repeated_target", "refused:" + type(e).__name__)
+                            continue
+                        ctx.evaluations += 1
+                        v = orc.basis(n, bits, 0)
+                        for q, pid in zip(targets, ids):
+                            v = orc.apply_single_pauli(v, n, pid, q)
+                        want = orc.basis(n, int(b1), p1) if 0 <= int(b1) < (1 << n) and n1 == n else None
+                        d = 1.0 if want is None else float(abs(v - want).max())
+                        ctx.count("oracle.repeated_target", "ok" if d <= NUM_TOL else "MISMATCH")
+                        if d > NUM_TOL:
+                            ctx.witness("pauli-track-repeated-target",
+                                        f"(bits, phase) = ({int(b1)}, {p1}) is not the product of the gate's single-qubit factors applied in list "
+                                        f"order to |{bits:0{n}b}> (max diff {d:.3g})",
+                                        {"n": n, "bits": bits, "gates": describe_gates([g])}, {"got_bits": int(b1), "got_phase": p1})
+                            break
+
+
 def oracle_search(ctx: Ctx, budget_s: float, min_iter: int):
     """the property on the REAL code: dense numpy vectors for n ≤ 6, a dict-based sparse simulation above"""
     import numpy as np
@@ -2058,8 +2096,9 @@ def run(ctx: Ctx, replay=None) -> int:
     ctx.trusted = TRUSTED
     ctx.assumptions = [
         "qubit counts and indices are naturals, bits and phase counters Python ints (ComputationalBasisState(-1) is out of scope)",
-        "a multi-qubit Pauli gate acts on distinct qubits (the bookkeeping of a gate with repeated targets is modelled "
-        "sequentially, as the code does, but no state-vector meaning is claimed for it)",
+        "a multi-qubit Pauli gate with a repeated target (accepted by the public factory) is read as the product of its single-qubit "
+        "factors in list order (model: sequential; oracle: oracle_repeated_targets, n ≤ 3, 2-3 factors, exhaustive); a code that "
+        "refuses such gates is not judged",
         "phase counters in the correspondence stay within ±10^4 so that float round-off in `phase * π/2` stays far below the grid tolerance",
         "GeneralCircuitQuantumState / QuantumStateVector freeze/`+` of circuits is the Rust binary (aliasing of circuits: C20)",
     ]
@@ -2094,5 +2133,6 @@ def run(ctx: Ctx, replay=None) -> int:
     with ctx.timed("oracle_validation"):
         broken = bool(ctx.failed_obligations or ctx.disagreements)
         budget = (3 if ctx.quick() else 150) * (8 if broken else 1)
+        oracle_repeated_targets(ctx)
         oracle_search(ctx, budget, ctx.n(150, 1500) * (4 if broken else 1))
     return ctx.finish()
